@@ -20,7 +20,11 @@
 (***************************************************************************)
 EXTENDS FBCore, JsonVal, TLC
 
-CONSTANT CachePath          \* path of the cache file (a sequence of names)
+CONSTANT CachePath,         \* path of the cache file (a sequence of names)
+         OpenKF             \* names of the known findings that are still open
+                            \* (known_findings.json); their exact shapes are named
+                            \* below and reported separately, everything else is a
+                            \* violation
 
 Nil == [nil |-> TRUE]
 EmptyFs == [p \in {} |-> DirNode]
@@ -144,7 +148,8 @@ ReplayOp(s, op, S) ==
                /\ op.p \notin s.claimedF
                /\ SetupErr(fs, {}, op.p) = ""
     IN IF ~pre THEN [S EXCEPT !.ok = FALSE]
-       ELSE LET S1 == [S EXCEPT !.live = @ \cup {op.p}, !.bfs = Remove(@, {op.p})]
+       ELSE LET S1 == [S EXCEPT !.live = @ \cup {op.p},
+                                !.bfs = IF S.hide THEN Remove(@, {op.p}) ELSE @]
                 S2 == ReplaySeq(s, op.subs, 1, S1)
             IN IF ~S2.ok THEN S2
                ELSE IF op.raised THEN [S2 EXCEPT !.live = @ \ {op.p}]
@@ -156,27 +161,37 @@ ReplayOp(s, op, S) ==
 ReplaySeq(s, ops, i, S) ==
   IF i > Len(ops) \/ ~S.ok THEN S ELSE ReplaySeq(s, ops, i + 1, ReplayOp(s, ops[i], S))
 
-SimOf(s) == [ok |-> TRUE, fuzzy |-> FALSE, bfs |-> s.bfs, live |-> s.live, outs |-> s.outs]
+(* hide = TRUE is the contract: a foreign file at the target of a started   *)
+(* build_file is invisible from then on.  hide = FALSE describes what the    *)
+(* implementation's replay overlay (CreatedFiles) does today for *nested*    *)
+(* targets: it does not hide them (known finding KF-hidden-foreign-target).  *)
+SimOf(s) == [ok |-> TRUE, fuzzy |-> FALSE, hide |-> TRUE, bfs |-> s.bfs, live |-> s.live,
+             outs |-> s.outs]
+NoLk == [found |-> FALSE, valid |-> FALSE, fuzzy |-> FALSE, kfHidden |-> FALSE, r |-> Nil]
 
 (* Lookup for a build_file call that has passed setup (target p hidden, live) *)
 LookupBF(s, p, f, args, kw) ==
   LET cands == {r \in AllRecs(s.rec.tree) : r.k = "bf" /\ r.p = p /\ ~r.sf} IN
-  IF ~s.rec.valid \/ cands = {} THEN [found |-> FALSE, valid |-> FALSE, fuzzy |-> FALSE, r |-> Nil]
+  IF ~s.rec.valid \/ cands = {} THEN NoLk
   ELSE LET r == CHOOSE x \in cands : TRUE
            S0 == [SimOf(s) EXCEPT !.live = @ \cup {p}, !.bfs = Remove(@, {p})]
            R == ReplaySeq(s, r.subs, 1, S0)
+           R2 == ReplaySeq(s, r.subs, 1, [S0 EXCEPT !.hide = FALSE])
            top == /\ ~r.raised /\ r.f = f /\ VerEq(s, f)
                   /\ Eq(San(args), r.args) /\ Eq(San(kw), r.kw) /\ Intact(s, r)
-       IN [found |-> TRUE, valid |-> top /\ R.ok, fuzzy |-> top /\ R.fuzzy, r |-> r]
+       IN [found |-> TRUE, valid |-> top /\ R.ok, fuzzy |-> top /\ R.fuzzy,
+           kfHidden |-> top /\ R.ok /\ ~R2.ok, r |-> r]
 
 LookupSB(s, f, args, kw) ==
   LET key == SBKeyOf(f, args, kw)
       cands == {r \in AllRecs(s.rec.tree) : r.k = "sb" /\ ~r.sf /\ SBKey(r) = key} IN
-  IF ~s.rec.valid \/ cands = {} THEN [found |-> FALSE, valid |-> FALSE, fuzzy |-> FALSE, r |-> Nil]
+  IF ~s.rec.valid \/ cands = {} THEN NoLk
   ELSE LET r == CHOOSE x \in cands : TRUE
            R == ReplaySeq(s, r.subs, 1, SimOf(s))
+           R2 == ReplaySeq(s, r.subs, 1, [SimOf(s) EXCEPT !.hide = FALSE])
            top == ~r.raised /\ VerEq(s, f)
-       IN [found |-> TRUE, valid |-> top /\ R.ok, fuzzy |-> top /\ R.fuzzy, r |-> r]
+       IN [found |-> TRUE, valid |-> top /\ R.ok, fuzzy |-> top /\ R.fuzzy,
+           kfHidden |-> top /\ R.ok /\ ~R2.ok, r |-> r]
 
 (* Applying a reused record: its keys are claimed, its successful outputs   *)
 (* (still in place on disk) become visible.                                  *)
@@ -205,7 +220,10 @@ NoPend == [on |-> FALSE]
 InitState == [ph |-> "idle", disk |-> [p \in {Root} |-> DirNode], rec |-> NoRec,
               pre |-> EmptyFs, v0dirs |-> {}, bfs |-> EmptyFs, live |-> {}, outs |-> EmptyFs,
               claimedF |-> {}, claimedS |-> {}, stack |-> <<>>, vers |-> TDict(<<>>),
-              name |-> "", pend |-> NoPend, refuse |-> FALSE, rooted |-> FALSE, builds |-> 0]
+              name |-> "", pend |-> NoPend, refuse |-> FALSE, builds |-> 0,
+              targets |-> {}, reused |-> {},
+              st |-> [q |-> 0, inv |-> 0, invfound |-> 0, reuse |-> 0, sfail |-> 0, commit |-> 0,
+                      rollback |-> 0, clean |-> 0, refuse |-> 0, nestedreuse |-> 0, failrec |-> 0]]
 
 Top(s) == s.stack[Len(s.stack)]
 PushSub(s, r) == [s EXCEPT !.stack[Len(s.stack)].subs = Append(@, r)]
@@ -215,6 +233,16 @@ CacheState(disk, rec, cser) ==
   IF ~Has(disk, CachePath) THEN "none"
   ELSE IF IsDir(disk, CachePath) THEN "dir"
   ELSE IF rec.valid /\ cser = rec.ser /\ cser > 0 THEN "valid" ELSE "bad"
+
+(* C03: files outside the managed set keep bytes and timestamp; a directory  *)
+(* disappears only if a build created it (and then only when empty, which   *)
+(* follows from the first conjunct applied to its contents).                 *)
+Managed(s) == {CachePath} \cup s.targets \cup s.claimedF \cup s.rec.outs
+ForeignUntouched(s, d) ==
+  /\ \A p \in Files(s.pre) \ Managed(s) : NodeAt(d, p) = s.pre[p]
+  /\ \A q \in Dirs(s.pre) \ Dirs(d) : q \in s.rec.cdirs /\
+        \A p \in Files(s.pre) : IsProperPrefix(q, p) => p \in Managed(s)
+OutputsNotRewritten(s, d) == \A p \in s.reused : NodeAt(d, p) = s.pre[p]
 
 RollbackOK(pre, d, cdirs) ==
   /\ Restrict(d, Files(d)) = Restrict(pre, Files(pre))
@@ -249,7 +277,8 @@ CheckInvoke(s, e) ==
   IF ~(s.ph = "build" /\ pd.on) THEN "H:invoke-without-begin"
   ELSE IF pd.serr = "RuntimeError" THEN "DuplicateRejected"
   ELSE IF pd.serr # "" THEN "SetupFailExpected"
-  ELSE IF pd.lk.valid /\ ~pd.lk.fuzzy THEN "ExecOnlyIfJustified"
+  ELSE IF pd.lk.valid /\ ~pd.lk.fuzzy /\ ~(pd.lk.kfHidden /\ "KF-hidden-foreign-target" \in OpenKF)
+    THEN "ExecOnlyIfJustified"
   ELSE IF ~(e.recv = San(pd.args) /\ e.recvkw = San(pd.kw)) THEN "ArgsRoundTripped"
   ELSE IF pd.kind = "bf" /\ ~e.path_ok THEN "PathNormalised"
   ELSE ""
@@ -315,6 +344,8 @@ CheckBuildEnd(s, e) ==
     IF fr.fin.out = "return" THEN
       IF e.out # "returned" THEN "NoSpuriousException"
       ELSE IF e.v # fr.fin.v THEN "ReturnMatches"
+      ELSE IF ~ForeignUntouched(s, d) THEN "ForeignUntouched"
+      ELSE IF ~OutputsNotRewritten(s, d) THEN "OutputsNotRewritten"
       ELSE IF Remove(d, {CachePath}) # FinalView(s) THEN "FinalTreeMatches"
       ELSE IF ~(IsFile(d, CachePath) /\ e.cser > 0) THEN "CacheWritten"
       ELSE IF ~e.tmp THEN "TempDirRemoved"
@@ -323,6 +354,8 @@ CheckBuildEnd(s, e) ==
       IF e.out # "raised" THEN "ExceptionPropagates"
       ELSE IF fr.fin.x # 0 /\ ~e.same THEN "ExcIdentity"
       ELSE IF e.err # fr.fin.err THEN "ExceptionClassMatches"
+      ELSE IF ~(\A p \in Files(s.pre) \ (Managed(s) \ s.targets) : NodeAt(d, p) = s.pre[p])
+        THEN "ForeignUntouched"
       ELSE IF ~RollbackOK(s.pre, d, s.rec.cdirs) THEN "RollbackRestores"
       ELSE IF ~e.tmp THEN "TempDirRemoved"
       ELSE ""
@@ -344,8 +377,18 @@ CheckClean(s, e) ==
     ELSE ""
   ELSE
     IF e.out # "ok" THEN "NoSpuriousException"
+    ELSE IF ~(\A p \in Files(d) \ ({CachePath} \cup s.rec.outs) : NodeAt(a, p) = d[p])
+      THEN "ForeignUntouched"
+    ELSE IF ~(Dirs(d) \ Dirs(a) \subseteq s.rec.cdirs) THEN "ForeignUntouched"
     ELSE IF a # CleanDisk(d, s.rec) THEN "CleanExact"
     ELSE ""
+
+(* Known findings (still-open genuine defects), named by their exact shape.  *)
+KnownFinding(s, e) ==
+  IF e.ev = "invoke" /\ s.pend.on /\ s.pend.lk.valid /\ ~s.pend.lk.fuzzy /\ s.pend.lk.kfHidden
+     /\ "KF-hidden-foreign-target" \in OpenKF
+  THEN "KF-hidden-foreign-target"
+  ELSE ""
 
 Check(s, e) ==
   CASE e.ev = "build" -> CheckBuild(s, e)
@@ -376,24 +419,25 @@ ApplyRootBegin(s, e) ==
   [s EXCEPT !.ph = "build", !.pre = s.disk, !.bfs = v0, !.v0dirs = Dirs(v0), !.live = {},
             !.outs = EmptyFs, !.claimedF = {}, !.claimedS = {},
             !.stack = <<Frame("root", <<>>, "", TList(<<>>), TDict(<<>>), "")>>,
-            !.pend = NoPend]
+            !.pend = NoPend, !.targets = {}, !.reused = {}]
 
 ApplyQ(s, e) ==
-  PushSub(s, QRec([kind |-> e.kind, p |-> e.p, cmp |-> e.cmp, td |-> e.td],
-                  Ans(SView(s), e)))
+  PushSub([s EXCEPT !.st.q = @ + 1],
+          QRec([kind |-> e.kind, p |-> e.p, cmp |-> e.cmp, td |-> e.td], Ans(SView(s), e)))
 
 ApplyBegin(s, e) ==
   IF e.ev = "bf_begin" THEN
     LET serr == SetupErr(SView(s), s.claimedF, e.p)
         s1 == [s EXCEPT !.live = @ \cup {e.p}, !.bfs = Remove(@, {e.p})]
         lk == IF serr = "" THEN LookupBF(s1, e.p, e.f, e.args, e.kw)
-              ELSE [found |-> FALSE, valid |-> FALSE, fuzzy |-> FALSE, r |-> Nil]
+              ELSE NoLk
     IN [s EXCEPT !.pend = [on |-> TRUE, kind |-> "bf", p |-> e.p, f |-> e.f, args |-> e.args,
-                           kw |-> e.kw, cmp |-> e.cmp, serr |-> serr, lk |-> lk]]
+                           kw |-> e.kw, cmp |-> e.cmp, serr |-> serr, lk |-> lk],
+                 !.targets = @ \cup {e.p}]
   ELSE
     LET serr == IF SBKeyOf(e.f, e.args, e.kw) \in s.claimedS THEN "RuntimeError" ELSE ""
         lk == IF serr = "" THEN LookupSB(s, e.f, e.args, e.kw)
-              ELSE [found |-> FALSE, valid |-> FALSE, fuzzy |-> FALSE, r |-> Nil]
+              ELSE NoLk
     IN [s EXCEPT !.pend = [on |-> TRUE, kind |-> "sb", p |-> <<>>, f |-> e.f, args |-> e.args,
                            kw |-> e.kw, cmp |-> "", serr |-> serr, lk |-> lk]]
 
@@ -404,7 +448,8 @@ ApplyInvoke(s, e) ==
             THEN [s EXCEPT !.live = @ \cup {pd.p}, !.bfs = Remove(@, {pd.p}),
                            !.claimedF = @ \cup {pd.p}]
             ELSE [s EXCEPT !.claimedS = @ \cup {SBKeyOf(pd.f, pd.args, pd.kw)}]
-  IN [s1 EXCEPT !.stack = Append(@, fr), !.pend = NoPend]
+  IN [s1 EXCEPT !.stack = Append(@, fr), !.pend = NoPend, !.st.inv = @ + 1,
+                !.st.invfound = @ + (IF pd.lk.found THEN 1 ELSE 0)]
 
 ApplyWrite(s, e) == [s EXCEPT !.stack[Len(s.stack)].wrote = FileNode(e.c, e.sz, e.mt)]
 
@@ -427,10 +472,15 @@ ApplyEnd(s, e) ==
                      IF pd.kind = "bf" THEN CmpVal(NodeAt(s.pre, pd.p), pd.cmp) ELSE <<"none">>,
                      FALSE, FALSE, r.ret, r.subs)
           s2 == [s1 EXCEPT !.live = st.live, !.outs = st.outs, !.bfs = st.bfs,
-                           !.claimedF = st.claimedF, !.claimedS = st.claimedS, !.pend = NoPend]
+                           !.claimedF = st.claimedF, !.claimedS = st.claimedS, !.pend = NoPend,
+                           !.targets = @ \cup st.claimedF,
+                           !.reused = @ \cup (DOMAIN st.outs \ DOMAIN s.outs),
+                           !.st.reuse = @ + 1,
+                           !.st.nestedreuse = @ + (IF \E i \in DOMAIN r.subs : r.subs[i].k # "q" THEN 1 ELSE 0),
+                           !.st.failrec = @ + (IF \E x \in AllRecs(r.subs) : x.raised THEN 1 ELSE 0)]
       IN PushSub(s2, nr)
     ELSE                     \* setup failure: recorded, never reused
-      PushSub([s EXCEPT !.pend = NoPend],
+      PushSub([s EXCEPT !.pend = NoPend, !.st.sfail = @ + 1],
               CRec(pd.kind, pd.p, pd.f, San(pd.args), San(pd.kw), pd.cmp, <<"none">>,
                    TRUE, TRUE, TNone, <<>>))
   ELSE
@@ -447,22 +497,25 @@ ApplyEnd(s, e) ==
 
 ApplyBuildEnd(s, e) ==
   LET d == FsOf(e.disk) IN
-  IF s.ph = "start" THEN [s EXCEPT !.ph = "idle", !.disk = d]
+  IF s.ph = "start" THEN [s EXCEPT !.ph = "idle", !.disk = d, !.st.refuse = @ + 1]
   ELSE
     LET fr == s.stack[1] IN
     IF fr.fin.out = "return" THEN
       LET fv == FinalView(s)
           nrec == [valid |-> TRUE, name |-> s.name, vers |-> s.vers, tree |-> fr.subs,
                    outs |-> RecOuts(fr.subs), cdirs |-> Dirs(fv) \ s.v0dirs, ser |-> e.cser]
-      IN [s EXCEPT !.ph = "idle", !.disk = d, !.rec = nrec, !.stack = <<>>, !.builds = @ + 1]
-    ELSE [s EXCEPT !.ph = "idle", !.disk = d, !.stack = <<>>, !.builds = @ + 1]
+      IN [s EXCEPT !.ph = "idle", !.disk = d, !.rec = nrec, !.stack = <<>>, !.builds = @ + 1,
+                   !.st.commit = @ + 1]
+    ELSE [s EXCEPT !.ph = "idle", !.disk = d, !.stack = <<>>, !.builds = @ + 1,
+                   !.st.rollback = @ + 1]
 
 ApplyClean(s, e) ==
   LET d == FsOf(e.disk)
       a == FsOf(e.after)
       cs == CacheState(d, s.rec, e.cser)
-  IN IF e.out = "ok" THEN [s EXCEPT !.disk = a, !.rec = NoRec]
-     ELSE [s EXCEPT !.disk = a]
+  IN IF e.out = "ok" THEN [s EXCEPT !.disk = a, !.rec = NoRec,
+                                    !.st.clean = @ + (IF cs = "valid" THEN 1 ELSE 0)]
+     ELSE [s EXCEPT !.disk = a, !.st.refuse = @ + 1]
 
 Apply(s, e) ==
   CASE e.ev = "build" -> ApplyBuild(s, e)
